@@ -41,6 +41,14 @@ CHECKS['C06'] = dict(
          'Cp data; the estimate range must equal the intersection. Exploration.',
     note='Trusted: Python warnings machinery (catch_warnings, filter always). Constituents with Cp data but no declared range are judged on their table span only.',
     ref='DESIGN.md C06')
+CHECKS['C01'] = dict(
+    technique='exhaustive unit vectors + Hypothesis descriptor->count mappings against an fsum reference over the constituent correlations; error-set equality for descriptors without data',
+    text='For the 9 shipped libraries (every unit vector, random mappings with integer/fractional/zero/negative counts, string and Group keys, fresh and previously used library objects) and for synthetic '
+         'in-memory libraries (groups lacking H, S, Cp or the whole property set, two names sharing one correlation object), Cp/R, H/RT, S/R and G/RT of the estimate are compared with fsum(count*group value) '
+         'at range ends, reference temperatures and interior points; properties a constituent lacks must raise IncompleteDataError; descriptors without the property set must be named exactly by '
+         'GroupMissingDataError. Exploration.',
+    note='Trusted: the per-group correlations as the reference (their own correctness is C05). Tolerance 1e-10*sum|term|+1e-12.',
+    ref='DESIGN.md C01')
 NOT_YET = {}
 
 def main():
